@@ -235,3 +235,36 @@ Proof.
   destruct (reduce_chain_links chain) as [r|e]; reflexivity.
 Qed.
 Print Assumptions tie_reduce_chain_links.
+
+(** * The C05 statements carried over to the regenerated source *)
+From InToto.Proofs Require Import ThresholdSpec VerifyAgreement.
+
+(** `verify_threshold_constraints` AS WRITTEN returns normally only if every step with a threshold above one has at
+    least `threshold` links and ALL of them agree with the first one in materials and products *)
+Theorem source_threshold_constraints_agreement : forall (l : layout) chain,
+  chain_ok chain ->
+  f_verify_threshold_constraints (layout_pv l) (chain_pv chain) = Ok VNone ->
+  forall s, In s (ly_steps l) -> (1 < st_threshold s)%Z ->
+    exists kl k0 ref rest, lookup (st_name s) chain = Some kl /\ kl = (k0, ref) :: rest /\
+      (st_threshold s <= Z.of_nat (length kl))%Z /\ forall k lk, In (k, lk) kl -> agrees ref lk = true.
+Proof.
+  intros l chain Hok H. rewrite (tie_threshold_constraints l chain Hok) in H.
+  destruct (verify_threshold_constraints l chain) as [[]|e] eqn:E; [|discriminate].
+  exact (agreement l chain E).
+Qed.
+
+(** ... and raises ThresholdVerificationError as soon as one link of such a step disagrees with the first *)
+Theorem source_threshold_constraints_dissent : forall (l : layout) chain,
+  chain_ok chain ->
+  (forall s, In s (ly_steps l) -> lookup (st_name s) chain <> None) ->
+  forall s k0 ref rest k lk, In s (ly_steps l) -> (1 < st_threshold s)%Z ->
+    lookup (st_name s) chain = Some ((k0, ref) :: rest) -> In (k, lk) ((k0, ref) :: rest) ->
+    agrees ref lk = false ->
+    f_verify_threshold_constraints (layout_pv l) (chain_pv chain) = Err EThreshold.
+Proof.
+  intros l chain Hok Hall s k0 ref rest k lk Hs Ht Hl Hin Hd.
+  rewrite (tie_threshold_constraints l chain Hok), (dissent_rejects l chain Hall s k0 ref rest k lk Hs Ht Hl Hin Hd).
+  reflexivity.
+Qed.
+Print Assumptions source_threshold_constraints_agreement.
+Print Assumptions source_threshold_constraints_dissent.
